@@ -413,6 +413,74 @@ func runC01(c *Ctx) {
 		c.floor("C01-R8", 2)
 	}
 
+	// ---- R9 every way of calling a function binds its parameters alike
+	c.rule("C01-R9", "SIB: every site of pkg/interpreter that binds the parameters of a user-defined function (Define of a name taken from Function.Params) passes the argument through the int-parameter coercion (a whole float64 - every number of a JSON body - becomes int64 for a parameter declared int): the direct call, the generic call, the pipe and the callback paths (map/filter/reduce) agree, so half(input.n), input.n |> half and map([input.n], half) compute the same")
+	{
+		isF2I := func(x ssa.Instruction) bool {
+			cv, ok := x.(*ssa.Convert)
+			if !ok {
+				return false
+			}
+			src, ok1 := cv.X.Type().Underlying().(*types.Basic)
+			dst, ok2 := cv.Type().Underlying().(*types.Basic)
+			return ok1 && ok2 && src.Info()&types.IsFloat != 0 && dst.Kind() == types.Int64
+		}
+		coerced := func(v ssa.Value) bool {
+			return derivesFrom(v, func(x ssa.Value) bool {
+				switch y := x.(type) {
+				case *ssa.Convert:
+					return isF2I(y)
+				case *ssa.Call:
+					// a coercion helper: it is told the parameter (a Field) the value is meant for
+					if sf := staticFn(y); sf != nil && sf.Pkg != nil && sf.Pkg.Pkg.Path() == interpPath {
+						takesField := false
+						for i := 0; i < sf.Signature.Params().Len(); i++ {
+							if nt := namedOf(sf.Signature.Params().At(i).Type()); nt != nil && nt.Obj().Name() == "Field" {
+								takesField = true
+							}
+						}
+						if takesField {
+							return reachesInstr(sf, isF2I, 4, map[*ssa.Function]bool{})
+						}
+					}
+				}
+				return false
+			})
+		}
+		n := 0
+		for _, fn := range c.srcFuncs(interpPkg) {
+			k := 0
+			eachInstr(fn, func(_ *ssa.BasicBlock, _ int, ins ssa.Instruction) {
+				call, ok := ins.(*ssa.Call)
+				if !ok || len(call.Call.Args) < 3 {
+					return
+				}
+				if nm := callName(call); nm != interpPath+".Environment.Define" && nm != interpPath+".Environment.DefineWithSource" {
+					return
+				}
+				// the name is the Name of an element of Function.Params
+				fromParams := derivesFrom(call.Call.Args[1], func(v ssa.Value) bool {
+					return loadedFromField(v, "Function", "Params") || func() bool {
+						if f, ok := v.(*ssa.Field); ok {
+							if nt := namedOf(f.X.Type()); nt != nil && nt.Obj().Name() == "Function" {
+								return nt.Underlying().(*types.Struct).Field(f.Field).Name() == "Params"
+							}
+						}
+						return false
+					}()
+				})
+				if !fromParams {
+					return
+				}
+				n++
+				k++
+				c.ob("C01-R9", fnKey(fn)+"#parameter-binding-coerces-like-a-direct-call-"+itoa(k), call.Pos(), coerced(call.Call.Args[2]), "this way of calling a user-defined function binds the argument to the parameter without the int coercion a direct call applies: a whole number from a JSON body stays a float64 for a parameter declared int, so the same function computes 3.5 here and 3 when called directly (or fails its int return type)")
+			})
+		}
+		c.Sites["C01-R9#parameter-binding-sites"] = n
+		c.floor("C01-R9", 3)
+	}
+
 	// ---- R7 integers are integers
 	c.rule("C01-R7", "INTCMP: for the ordering (<, <=, >, >=) and the +, -, * arms of the interpreter's binary-operator dispatch, the handler the arm calls (and its same-package callees, two levels) performs that operation on two integer payloads - values taken out of the dynamic operands by type assertion with no numeric conversion on the way: int x int is never routed through float64 (53-bit mantissa), which would change results for integers above 2^53 while == still compares them exactly")
 	c.Sites["C01-R7#operator-arms"] = intOpAudit(c, "C01-R7", interpPkg, "Interpreter.evaluateBinaryOp", modPath+"/pkg/ast", "BinOp",
